@@ -19,11 +19,11 @@ CHECKS = {
               "all four classes by rotating construction routes; (C) seeded random programs at byte/word/kilobit/8192-bit "
               "lengths. Every recorded event (return value, class, pos, exception category, frame of all live objects) is "
               "judged by TLC against Step in spec/Bitstring.tla. Exhaustive within the bounds, sampled beyond."),
-        design='DESIGN.md section 9 (C01)', technique='TLA+ spec + TLC exhaustive enumeration replayed into code + TLC trace validation'),
+        design='DESIGN.md section 10 (C01)', technique='TLA+ spec + TLC exhaustive enumeration replayed into code + TLC trace validation'),
 }
 
 def core(text):
-    return dict(text=text, design='DESIGN.md section 9',
+    return dict(text=text, design='DESIGN.md section 10',
                 technique='TLA+ spec + TLC model checking of Step theorems + TLC-enumerated edges replayed into code + TLC trace validation')
 
 
@@ -31,12 +31,15 @@ CHECKS.update({
     'C03': core("Model-based: (A) TLC model-checks the frame/raise/position theorems of the Step function on every mutator call "
                 "over every content up to 2-3 bits; (B) TLC enumerates every (content, mutator call) edge with arguments in, at "
                 "and beyond the ends, each replayed on BitArray and BitStream; (C) seeded random sequences of mutations on one "
-                "object at byte/word/kilobit lengths. TLC judges return value, new content, pos and every other live object "
-                "after each call. Exhaustive within the bounds, sampled beyond."),
+                "object at byte/word/kilobit lengths; behaviours of the Ref machine (Ref.tla, three live objects, cross-object "
+                "operands, lsb0 toggles) printed by tlc -simulate are replayed too. TLC judges return value, new content, pos and "
+                "every other live object after each call. Exhaustive within the bounds, sampled beyond."),
     'C06': core("Model-based: (A) TLC model-checks 0<=pos<=len, read/peek consumption and the documented position movements on "
                 "every stream/mutator call from every (content up to 3 bits, pos); (B) the same edges replayed on ConstBitStream "
-                "and BitStream from every position; (C) seeded random sequences of stream operations. Token reads (ue, uint:n, "
-                "...) are decided under C02/C10; this check covers integer-count reads, seeks, finds and all mutators."),
+                "and BitStream from every position; Ref.tla explored as a state graph (0<=pos<=len in every reachable state of three "
+                "live objects, at most the target changes per step) and its simulated behaviours replayed; (C) seeded random "
+                "sequences of stream operations incl. token reads and readlist / peeklist of random token lists from random "
+                "positions."),
     'C07': core("Model-based: the brute-force definition (set comprehension Matches in BitSeq.tla) is evaluated by TLC on every "
                 "recorded search call: exhaustively for every content up to 2-3 bits x pattern x window x count, and on seeded "
                 "random/periodic/constant data up to 300 bits (thorough: 20000 bits) with planted aligned/unaligned occurrences "
@@ -57,7 +60,7 @@ CHECKS.update({
 })
 
 def codec(text):
-    return dict(text=text, design='DESIGN.md section 9',
+    return dict(text=text, design='DESIGN.md section 10',
                 technique='TLA+ codec spec (bit-sequence arithmetic) + TLC model checking of round-trip theorems + TLC-enumerated values through every route + TLC trace validation')
 
 
@@ -75,8 +78,8 @@ CHECKS.update({
     'C15': codec("Model-based: range/size classification Fits/LenAllowed in Codec.tla, model-checked at the limits for every "
                  "width; every (dtype, length incl. 0/negative/not-allowed, value from min-2 to max+2) through every creation "
                  "route incl. property assignment onto an object holding other content; TLC requires CreationError and no change "
-                 "for every non-fitting combination and the exact length otherwise. Offset/length windows over byte sources are "
-                 "decided under C17."),
+                 "for every non-fitting combination and the exact length otherwise; the Array element route incl. scaled next to "
+                 "unscaled dtypes, and offset/length windows over byte sources ending within a byte of the end (also under C17)."),
 })
 
 CHECKS.update({
@@ -86,13 +89,13 @@ CHECKS.update({
                       "every token list up to K tokens over a 14-kind menu and writes the rows, which are replayed through the "
                       "library in several spellings (list form, multipliers, brackets, keyword lengths, whitespace); seeded "
                       "random formats over 24 token kinds are judged event by event."),
-                design='DESIGN.md section 9 (C05)', technique='TLA+ format spec + TLC theorems and enumeration in one run + replay + TLC trace validation'),
+                design='DESIGN.md section 10 (C05)', technique='TLA+ format spec + TLC theorems and enumeration in one run + replay + TLC trace validation'),
     'C18': dict(text=("Model-based: StructToks in Format.tla lays out struct codes per prefix (standard sizes; native sizes and "
                       "alignment for '@' from platform constants checked at start-up); TLC model-checks layout/alignment/"
                       "byte-reversal/round-trip theorems on every prefix x code sequence x limit value and the rows are replayed "
                       "through pack/unpack/.bytes; le/be/ne relations and byteswap on random whole-byte contents are validated "
                       "through Codec/BitSeq semantics. The '@' deviation from struct.pack is a listed known finding."),
-                design='DESIGN.md section 9 (C18)', technique='TLA+ struct layout spec + TLC theorems and enumeration + replay + TLC trace validation'),
+                design='DESIGN.md section 10 (C18)', technique='TLA+ struct layout spec + TLC theorems and enumeration + replay + TLC trace validation'),
 })
 
 CHECKS.update({
@@ -101,12 +104,14 @@ CHECKS.update({
                       "content up to 8-13 bits; all four classes x every length 0..20 and seeded random windows over six source "
                       "kinds (incl. real files and handles) and the real tofile loop across a hooked chunk boundary are validated "
                       "event by event; thorough writes one real > 100 MiB object."),
-                design='DESIGN.md section 9 (C17)', technique='TLA+ serialisation spec + TLC model checking + TLC trace validation of recorded file/bytes operations'),
+                design='DESIGN.md section 10 (C17)', technique='TLA+ serialisation spec + TLC model checking + TLC trace validation of recorded file/bytes operations'),
     'C08': dict(text=("Model-based: the reference state machine has no construction-route component, so conformance of the same "
                       "calls on twins built by 17 routes (text, bytes windows, bitarray, slices, uint, fromstring, whole files, "
                       "length-limited and offset file windows, file handles) to the one Step function decides route "
-                      "independence; seeded random programs under msb0 and lsb0, each event judged by TLC."),
-                design='DESIGN.md section 9 (C08)', technique='TLA+ route-free reference machine + TLC trace validation of twin objects built by every route'),
+                      "independence; the string-cache route is exercised with prior history (the literal used as operand of in-place "
+                      "additions onto objects that are then changed), mutable twins are also serialised after a mutation; seeded "
+                      "random programs under msb0 and lsb0, each event judged by TLC."),
+                design='DESIGN.md section 10 (C08)', technique='TLA+ route-free reference machine + TLC trace validation of twin objects built by every route'),
 })
 
 CHECKS.update({
@@ -115,12 +120,14 @@ CHECKS.update({
                       "histories (1.4-8 million states) and proves ImmutableConst / OnlyTargetChanges with every discipline on, and "
                       "must find a counterexample for each discipline switched off (negative controls). The real code is bound by "
                       "seeded random derive/mutate programs over every derivation route and user-held buffers; after every call "
-                      "TLC re-checks the value of every live object against the reference semantics."),
-                design='DESIGN.md section 9 (C04)', technique='TLA+ mechanism model (TLC exhaustive, with negative controls) + TLC trace validation with whole-state frame check'),
+                      "TLC re-checks the value of every live object against the reference semantics. The repository's own 836 tests, run "
+                      "under an external tracer, are judged by the same validator for 'immutable objects never change' and 'at most the "
+                      "target changes' at every public call they make."),
+                design='DESIGN.md section 10 (C04)', technique='TLA+ mechanism model (TLC exhaustive, with negative controls) + TLC trace validation with whole-state frame check'),
     'C09': dict(text=("Model-based: PureConstruction on Mech.tla (cache capacity 1, eviction, option changes) plus trace validation "
                       "of long call histories over 330 distinct keys with option flips and mutation of earlier results against "
                       "the history-free Step function - which is exactly the comparison with the same call on cold caches."),
-                design='DESIGN.md section 9 (C09)', technique='TLA+ mechanism model of the LRU cache + TLC trace validation of long histories against a history-free step function'),
+                design='DESIGN.md section 10 (C09)', technique='TLA+ mechanism model of the LRU cache + TLC trace validation of long histories against a history-free step function'),
 })
 
 CHECKS.update({
@@ -129,8 +136,9 @@ CHECKS.update({
                       "extended grid, overflow after rounding, per-format and per-option special mappings). TLC checks the "
                       "decode/encode round trip on every code; every code and (quick: ~760, thorough: all 65536) half inputs x "
                       "every format x both mxfp_overflow modes go through the real library and TLC compares; random float64 "
-                      "midpoints +-1ulp, subnormals, inf/NaN/-0.0 and power-of-two scaled dtypes likewise."),
-                design='DESIGN.md section 9 (C11)', technique='TLA+ bit-pattern float codec spec + TLC round-trip theorems + exhaustive code tables replayed + TLC trace validation'),
+                      "midpoints +-1ulp, subnormals, inf/NaN/-0.0, power-of-two scaled dtypes and Arrays of these formats (0.0 / -0.0 "
+                      "in one Array, mode changes between appends, scaled next to unscaled) likewise."),
+                design='DESIGN.md section 10 (C11)', technique='TLA+ bit-pattern float codec spec + TLC round-trip theorems + exhaustive code tables replayed + TLC trace validation'),
 })
 
 CHECKS.update({
@@ -138,8 +146,9 @@ CHECKS.update({
                       "w-bit blocks; MC_Array explores the Array state machine exhaustively (52k-377k states) checking that "
                       "decoding commutes with the list model, trailing bits are untouched and failures change nothing; seeded "
                       "random programs over 36 dtypes, all list operations, integer element-wise operators (recomputed by TLC), "
-                      "struct-code dtypes and array.array interchange are validated event by event on the real Array."),
-                design='DESIGN.md section 9 (C14)', technique='TLA+ Array state machine (TLC exhaustive) + TLC trace validation of random list/operator programs'),
+                      "struct-code dtypes and array.array interchange, Arrays over scaled dtypes, astype, fromfile and Dtype attributes are "
+                      "validated event by event on the real Array."),
+                design='DESIGN.md section 10 (C14)', technique='TLA+ Array state machine (TLC exhaustive) + TLC trace validation of random list/operator programs'),
 })
 
 CHECKS.update({
@@ -148,8 +157,10 @@ CHECKS.update({
                       "recorded event; the Step function leaves adversarial calls unconstrained, so only the envelope judges "
                       "them. Seeded adversarial programs call every public callable of the four classes, Array, Dtype and pack "
                       "with arguments of the documented types and arbitrary values, in sequences, under msb0 and lsb0, "
-                      "interleaved with fully specified calls; MC_Core proves the same envelope for the specification itself."),
-                design='DESIGN.md section 9 (C20)', technique='TLA+ trace validator envelope clauses evaluated by TLC on adversarial call sequences'),
+                      "interleaved with fully specified calls and derive-then-mutate programs; the repository's own 836 tests run under an "
+                      "external tracer and every public call they make is judged by the same envelope and frame clauses; MC_Core "
+                      "proves the same envelope for the specification itself."),
+                design='DESIGN.md section 10 (C20)', technique='TLA+ trace validator envelope clauses evaluated by TLC on adversarial call sequences'),
 })
 
 CHECKS.update({
@@ -159,7 +170,7 @@ CHECKS.update({
                       "for every content up to 10 bits. There is no separate reachable state space for this property, so the "
                       "model-checking part is small; the weight is on validated outputs over lengths 0..4001, 22 pp format "
                       "specifications, widths 0..200, separators, offsets, no_color, msb0/lsb0 and Array repr over 35 dtypes."),
-                design='DESIGN.md section 9 (C19)', technique='TLA+ relational spec of printed text + trusted lexer + TLC evaluation on recorded outputs'),
+                design='DESIGN.md section 10 (C19)', technique='TLA+ relational spec of printed text + trusted lexer + TLC evaluation on recorded outputs'),
 })
 
 NOT_YET = {
